@@ -329,4 +329,37 @@ theorem stale_pair_breaks_validation :
     ¬ AggKeys toyEnv toyUpdated ∧ validateAgg toyEnv (exportAgg toyUpdated) = false := by
   unfold AggKeys; decide
 
+/-! ## module-level import = keeper-level import ∘ JSON decode -/
+
+/-- **no defaulting**: for every genesis state `g` whatsoever — all switches off, zero-valued structs, empty lists included — the
+module-level import of its JSON is the keeper-level import of `g` itself (the codec's round trip `decode (encode g) = g` is the
+only assumption; it is ProtoCanonical for the JSON codec, checked by every harness run) -/
+theorem module_import_no_defaulting {G S : Type} (encode : G → Bytes) (decode : Bytes → Option G) (init : G → S)
+    (hc : ∀ g, decode (encode g) = some g) (g : G) : moduleInit decode init (encode g) = .ok (init g) := by
+  simp [moduleInit, hc g]
+
+/-- export through `AppModule.ExportGenesis`, import through `AppModule.InitGenesis`: the aggregate module state comes back
+unchanged, whatever the parameter values are -/
+theorem module_roundtrip_aggregate {env : Env} (encode : AggGenesis → Bytes) (decode : Bytes → Option AggGenesis)
+    (hc : ∀ g, decode (encode g) = some g) {st : AggState} (h : AggKeys env st.a) (hp : Sorted st.p) :
+    moduleInit decode (initAggregate env) (encode (exportAggregate st)) = .ok st := by
+  rw [module_import_no_defaulting encode decode _ hc, roundtrip_aggregate h hp]
+
+theorem module_roundtrip_xibc (encode : Genesis → Bytes) (decode : Bytes → Option Genesis)
+    (hc : ∀ g, decode (encode g) = some g) {s : Store} (h : ModuleKeys s) :
+    moduleInit decode initXibc (encode (exportXibc s)) = .ok s := by
+  rw [module_import_no_defaulting encode decode _ hc, roundtrip h]
+
+/-- toy parameter stores: key 1 = EnableAggregate, key 2 = EnableEVMHook; value 0 = false, 1 = true -/
+def toyParamsOff : Store := [([1], [0]), ([2], [0])]
+def toyParamsDefault : Store := [([1], [1]), ([2], [1])]
+
+/-- the seeded "zero value means absent" defaulting: a chain whose governance switched both parameters off comes back with both
+switched on -/
+theorem defaulting_breaks_roundtrip :
+    Sorted toyParamsOff ∧
+    initAggregateDefaulting toyEnv toyParamsOff toyParamsDefault (exportAggregate ⟨toyAgg, toyParamsOff⟩) ≠ ⟨toyAgg, toyParamsOff⟩ ∧
+    initAggregate toyEnv (exportAggregate ⟨toyAgg, toyParamsOff⟩) = ⟨toyAgg, toyParamsOff⟩ := by
+  refine ⟨(sortedB_iff _).mp (by decide), by decide, by decide⟩
+
 end TM.Genesis
